@@ -13,6 +13,8 @@ op lines
   slowlog <arg>…  `SlowRequestLogger::add` (arg = hex, `~` = not a bulk string) → ok | PANIC
   name <hex>      `CmdType` / `DataCmdType` of a command with this name → <CmdType> <DataCmdType>
   clustername <hex> / usize <hex> / atoi <hex> / utf8 <hex>
+  setrepl <arg>… / setmeta <arg>…   `ReplicatorMeta::from_resp` / `ProxyClusterMeta::from_resp` on `UMCTL SETREPL|SETCLUSTER <args>`
+                             (arg = hex, `~` = nil bulk) → done big=<0|1> | PANIC   (big: more than 64·bytes + 4096 requested)
   rangemap <s-e>…            `RangeMap::from` on the list as given → ok contains=<n> | PANIC
   setcluster t|z <s-e>…      `UMCTL SETCLUSTER` (textual | compressed) with one MIGRATING range list of a local
                              node, through the real `server_proxy` → ok | closed | stalled
@@ -170,7 +172,7 @@ def step (st : St) (toks : List String) : St × String :=
     | none => (st, "bad-op")
   | ["clustername", h] =>
     match bytesOfHex h with
-    | some b => (st, if !utf8Valid b then "nonutf8" else if clusterNameOk b then "ok" else "err")
+    | some b => (st, if !utf8Valid b then "nonutf8" else if clusterNameOkV Um.Gen.Hostile.clusterNameAscii b then "ok" else "err")
     | none => (st, "bad-op")
   | ["usize", h] =>
     match bytesOfHex h with
@@ -189,6 +191,11 @@ def step (st : St) (toks : List String) : St × String :=
     match bytesOfHex h with
     | some b => (st, if utf8Valid b then "valid" else "invalid")
     | none => (st, "bad-op")
+  | "setrepl" :: _ | "setmeta" :: _ =>
+    -- `ReplicatorMeta::from_resp` / `ProxyClusterMeta::from_resp` on hostile arguments: they return (Ok or Err)
+    -- without panicking and without requesting memory beyond a constant multiple of the arguments
+    -- (`umctlCountPrealloc = false`, theorem `C16_umctl_counts`)
+    (st, if Um.Gen.Hostile.umctlCountPrealloc then "done big=?" else "done big=0")
   | "rangemap" :: rest =>
     match rest.mapM rangeOf with
     | some rs =>
